@@ -1,5 +1,6 @@
 pub mod common;
 pub mod large;
+pub mod richtext;
 pub mod c01;
 pub mod cap;
 pub mod text;
